@@ -42,7 +42,7 @@ def libs():
 def harness(name):
     out = os.path.join(B, name); src = os.path.join(ROOT, "harness", name + ".cpp")
     if os.path.exists(out) and os.path.getmtime(out) >= os.path.getmtime(src): return out
-    cmd = ["g++", "-O1", "-std=gnu++11", "-msse3", "-frounding-math", "-DIBEX_VERIF_HOOKS", "-w", "--coverage", "-fno-inline"] + includes() + \
+    cmd = ["g++", "-O1", "-std=gnu++11", "-msse3", "-frounding-math", "-DIBEX_VERIF_HOOKS", "-w", "--coverage", "-fno-inline", "-DVERIF_COVERAGE"] + includes() + \
           ["-I" + os.path.join(ROOT, "harness"), src, "-o", out] + libs()
     rc, o = sh(cmd, cwd=B)
     if rc: sys.exit(o[-2000:])
